@@ -9,6 +9,8 @@ dimod/generators/integer.py:
   `X.bit_length() - 1`, or the float pipeline `int(np.floor(np.log2(X)))` / `math.floor(math.log2(X))` (the float `log2`
   rounds up to `k` just below `2**k` from `2**49 - 1` on: D65g);
 * the remainder rule `if S - 2 ** n >= 0: append(S - 2 ** n + 1)`;
+* the expression assigned to `num_dqm_vars` (DQM log10): the exact digit count `len(str(S))`, or the float pipeline
+  `int(np.ceil(np.log10(S + 1)))` (one short at `S = 10**15` and for `S = 10**k + d`, `k >= 16`: D75g);
 * the coefficient of the extra `cross_zero` slack variable and the guards of `zero_constraint`;
 * the accepted `penalization_method` values, the parameter defaults `lb`, `ub`, `constant`, `cross_zero`;
 * the `unbalanced` branch: `add_linear(v, lagrange_multiplier[0] * bias)`, `self.offset += -ub_c`,
@@ -55,6 +57,17 @@ def log2_impl(exprs, arg, where):
     if e in (f'int(np.floor(np.log2({arg})))', f'math.floor(math.log2({arg}))', f'int(math.floor(math.log2({arg})))', f'int(numpy.floor(numpy.log2({arg})))'):
         return 'floatFloorLog2'
     raise SystemExit(f'slack_rule: {where}: unknown count expression `{exprs[0]}`')
+
+
+def log10_impl(exprs, arg, where):
+    if len(exprs) != 1:
+        raise SystemExit(f'slack_rule: {where}: expected one assignment of num_dqm_vars, found {exprs}')
+    e = exprs[0].replace(' ', '')
+    if e in (f'len(str({arg}))', f'len(str(int({arg})))'):
+        return 'decimalDigits'
+    if e in (f'int(np.ceil(np.log10({arg}+1)))', f'int(numpy.ceil(numpy.log10({arg}+1)))', f'math.ceil(math.log10({arg}+1))', f'int(math.ceil(math.log10({arg}+1)))'):
+        return 'floatCeilLog10'
+    raise SystemExit(f'slack_rule: {where}: unknown digit-count expression `{exprs[0]}`')
 
 
 def remainder_rule(fn, n, S, where):
@@ -105,6 +118,9 @@ def defaults(fn):
     return d
 
 
+CHECKS_FIRST = []
+
+
 def unbalanced(fn):
     for node in ast.walk(fn):
         if isinstance(node, ast.If) and ast.unparse(node.test).replace(' ', '') == "penalization_method=='unbalanced'":
@@ -113,6 +129,11 @@ def unbalanced(fn):
                          'self.add_linear_equality_constraint(terms,lagrange_multiplier[1],-ub_c)', 'return[]']
             if body[-4:] != want_tail or 'TypeError' not in body[0]:
                 raise SystemExit(f'slack_rule: unbalanced branch has an unexpected shape: {body}')
+            # round 8 (D76g): are both multipliers read BEFORE the first change of the model?
+            middle = body[1:-4]
+            if middle not in ([], ['(lagrange_multiplier[0],lagrange_multiplier[1])'], ['lagrange_multiplier[0],lagrange_multiplier[1]']):
+                raise SystemExit(f'slack_rule: unbalanced branch has unexpected statements before the loop: {middle}')
+            CHECKS_FIRST.append(bool(middle))
             tail = node.orelse
             if not (len(tail) == 1 and isinstance(tail[0], ast.Raise) and 'ValueError' in ast.unparse(tail[0])):
                 raise SystemExit('slack_rule: the `else` of the penalization_method dispatch is not `raise ValueError`')
@@ -127,6 +148,7 @@ def main():
     bimpl = log2_impl(assigned(bq, 'num_slack'), 'slack_upper_bound', 'BQM.add_linear_inequality_constraint')
     dimpl = log2_impl(assigned(dq, 'num_slack'), 'slack_upper_bound', 'DQM.add_linear_inequality_constraint')
     eimpl = log2_impl(assigned(be, 'max_pow'), 'upper_bound', 'binary_encoding')
+    d10 = log10_impl(assigned(dq, 'num_dqm_vars'), 'slack_upper_bound', 'DQM.add_linear_inequality_constraint (log10)')
     remainder_rule(bq, 'num_slack', 'slack_upper_bound', 'BQM'); remainder_rule(dq, 'num_slack', 'slack_upper_bound', 'DQM')
     bcoef, bguard = zero_info(bq, 'BQM', False)
     dcoef, dguard = zero_info(dq, 'DQM', True)
@@ -153,6 +175,11 @@ def main():
              'def penalizationMethods : List String := ["slack", "unbalanced"]', '',
              '/-- defaults: `lb = np.iinfo(np.int64).min`, `ub = 0`, `constant = 0`, `cross_zero = False` -/',
              'def defaultLb : Int := -9223372036854775808', 'def defaultUb : Int := 0', 'def defaultConstant : Int := 0', 'def defaultCrossZero : Bool := false', '',
+             '/-- how the number of `log10` slack variables is computed: exactly (`len(str(S))`) or through the float `log10` -/',
+             'inductive Log10Impl where', '  | decimalDigits | floatCeilLog10', 'deriving DecidableEq, Repr', '',
+             f'/-- `num_dqm_vars` of `DiscreteQuadraticModel.add_linear_inequality_constraint` (log10) -/\ndef dqmNumDigits : Log10Impl := .{d10}', '',
+             '/-- `unbalanced`: both multipliers are read (`lagrange_multiplier[0], lagrange_multiplier[1]`) before the first change of the model -/',
+             f'def unbalancedChecksFirst : Bool := {b(CHECKS_FIRST[-1])}', '',
              'end Generated.SlackRule', '']
     text = '\n'.join(lines)
     old = open(OUT).read() if os.path.exists(OUT) else None
